@@ -55,7 +55,7 @@ def reimportStep (o : OrbState) : Obs × OrbState :=
 def step (wr : Wiring) (φ : Faults) (w : World) : Op → Obs × World
   | .recv pkt =>
     let out := ibcRecv wr φ w pkt
-    (.recv out.ack out.ctx.moves out.ctx.reqs out.ctx.events out.ctx.calls, out.ctx.w)
+    (.recv out.ack out.ctx.moves out.ctx.reqs out.ctx.events out.ctx.calls, out.world)
   | .msg m =>
     (match msgStep wr.cfg φ w.orb m with
      | .ok (o, evs, _) => (.msg true evs, { w with orb := o })
